@@ -210,6 +210,11 @@ func injectConcretise(segs []injectSeg, id, variant int, salt string) *injectCon
 	if r.Intn(2) == 0 {
 		b.WriteString("import (\n\t\"context\"\n\t\"sync\"\n\t\"time\"\n\n\tprotoimpl \"google.golang.org/protobuf/runtime/protoimpl\"\n)\n\n")
 	}
+	if r.Intn(16) == 0 {
+		// one very long line ahead of the first annotation (generated files carry raw descriptors of this size):
+		// more than a line-oriented reader's default buffer
+		b.WriteString("var rawDesc = \"" + strings.Repeat("\\x0a\\x12proto", 7000) + "\"\n\n")
+	}
 	if r.Intn(3) == 0 {
 		b.WriteString("const (\n\t_ = protoimpl.EnforceVersion(20 - protoimpl.MinVersion)\n\traw = `json:\"in_const\" // @tag json:\"no\"`\n)\n\n")
 	}
